@@ -1,8 +1,13 @@
 #!/usr/bin/env python3
-"""usage: tools/mk_mut.py Cxx "pytest args"  -- creates worktree /tmp/mut_Cxx, /tmp/mut_Cxx_out/{property.txt,prompt.txt}"""
-import json, os, subprocess, sys
+"""usage: tools/mk_mut.py Cxx "pytest args" [round]
+creates worktree /tmp/mut<round>_Cxx and /tmp/mut<round>_Cxx_out/{property.txt,prompt.txt}.
+For round >= 2 the prompt lists the changes already collected for this property
+(from /verif/seeded/Cxx-*/: what each needs to manifest and the touched hunks) so that the
+new ones are different; nothing else from /verif is shown to the agent."""
+import glob, json, os, re, subprocess, sys
 pid, tests = sys.argv[1], sys.argv[2]
-wt, out = f"/tmp/mut_{pid}", f"/tmp/mut_{pid}_out"
+rnd = sys.argv[3] if len(sys.argv) > 3 else ""
+wt, out = f"/tmp/mut{rnd}_{pid}", f"/tmp/mut{rnd}_{pid}_out"
 subprocess.run(f"git -C /repo worktree remove --force {wt}", shell=True, capture_output=True)
 subprocess.run(f"git -C /repo worktree add --detach {wt} HEAD -q", shell=True, check=True)
 os.makedirs(out, exist_ok=True)
@@ -12,5 +17,14 @@ for l in open('/verif/properties.jsonl'):
         prop = f"{p['id']} — {p['title']}\n\nStatement: {p['statement']}\n\nQuantifier: {p['quantifier']['text']}\n\nRelevant files: {', '.join(p['anchors']['files'])}\n"
 open(f"{out}/property.txt", "w").write(prop)
 t = open('/verif/tools/mut_prompt_template.txt').read()
+if rnd:
+    prev = []
+    for d in sorted(glob.glob(f"/verif/seeded/{pid}-*")):
+        m = json.load(open(d + "/meta.json"))
+        hunks = [l for l in open(d + "/patch.diff") if l.startswith(("+++ ", "@@"))]
+        where = " ".join(re.sub(r"^\+\+\+ b/", "", h.strip()) if h.startswith("+++") else h.strip().split("@@")[-1].strip() for h in hunks)[:300]
+        prev.append(f"- [{where}] needs: {m['needs_to_manifest']}")
+    t = t.replace("Task: produce TWO independent,", "Changes ALREADY collected for this property in an earlier round (do NOT reproduce these or close variants; pick other mechanisms, other functions, other clauses of the statement, other learner/runner types the property covers):\n" + "\n".join(prev) + "\n\nTask: produce TWO independent,")
+    t = t.replace("{a, b}", "{c, d}")
 open(f"{out}/prompt.txt", "w").write(t.replace('{WT}', wt).replace('{OUT}', out).replace('{PROP}', prop).replace('{TESTS}', tests))
 print("ready", wt)
